@@ -1,1 +1,63 @@
-Require Import SR.Model.Layout.
+(* C01 - Every named COBOL item is read from the byte range the record layout assigns it.
+   Only property theorems here, each closed by an exact lemma of Proofs/LayoutP.v.
+
+   [item] = record description tree (Spec/Layout.v); [spec_nav e (VItem t) 0 p] = where the COBOL rules put
+   the item reached by path p (names and indices) and which view of it; [build t] = the JSON schema
+   build_json_schema emits (Model/Layout.v, compared with the real emitted schema on every run);
+   [nav_of], [nav_path], [nav_raw] = LocationMaker.walk + NDNav.name/index/raw.
+   [wf e t]: no OCCURS DEPENDING ON (that is C06's theorem); every REDEFINES names an earlier sibling that is
+   not itself a redefiner, is no longer than it, and neither is an elementary OCCURS item; no REDEFINES
+   inside a repeated group.  The last two are the known findings K-occurs-elem-in-union and
+   K-redef-in-occurs; everything else in [wf] is what a COBOL compiler demands anyway.
+   The record [r] is a list over ANY element type (EBCDIC bytes or native text characters alike) and
+   of any length; [dcount] is irrelevant without DEPENDING ON. *)
+From Coq Require Import List Arith NArith Bool.
+Import ListNotations.
+Require Import SR.Base.Res SR.Spec.Layout SR.Model.Layout SR.Proofs.LayoutP.
+
+Theorem C01_layout : forall (B : Type) (dcount : list B -> nat) (r : list B) (e : env) (t : item),
+  wf e t = true -> NoDup (ids t) ->
+  exists v0, nav_of dcount r (build t) = Ok v0
+    /\ lstart (n_loc v0) = 0 /\ lend (n_loc v0) = extent e t
+    /\ forall p v st, spec_nav e (VItem t) 0 p = inl (v, st) ->
+         exists nv, nav_path dcount r v0 p = Ok nv
+           /\ lstart (n_loc nv) = st /\ lend (n_loc nv) = st + view_size e v
+           /\ nav_raw r nv = slice r st (st + view_size e v).
+Proof. exact layout_correct. Qed.
+Print Assumptions C01_layout.
+
+Theorem C01_index_refused : forall (B : Type) (dcount : list B -> nat) (r : list B) (e : env) (t : item),
+  wf e t = true -> NoDup (ids t) ->
+  forall v0, nav_of dcount r (build t) = Ok v0 ->
+  forall p x st i, spec_nav e (VItem t) 0 p = inl (VItem x, st) -> is_table x = true -> count e (item_oc x) <= i ->
+    exists nv, nav_path dcount r v0 p = Ok nv /\ nav_index dcount r nv i = Err IndexError.
+Proof. exact layout_index_refused. Qed.
+Print Assumptions C01_index_refused.
+
+(* The children loop of build_json_schema, flattened: REDEFINES-x -> oneOf [x, its redefiners] sits where x is. *)
+Theorem C01_redefines_in_place : forall (e : env) (i : id) (rd : option id) (ks : items),
+  NoDup (ids_kids ks) -> unions_ok e [] ks = true ->
+  build_alt (Group i Once rd ks) = JObj (Some (KName i)) (assemble_d ks).
+Proof. exact build_group_once. Qed.
+Print Assumptions C01_redefines_in_place.
+
+(* Non-vacuity.  01 R. 05 A X(3). 05 B X(4). 05 C REDEFINES B X(2). 05 T OCCURS 2. 10 U X(1). 10 V X(2). 05 D X(2).
+   (ids: R=1 A=2 B=3 C=4 T=5 U=6 V=7 D=8).  A is at 0-3, B at 3-7, C at 3-5 (where B begins, adding no length),
+   T[1].V at 11-13, D at 13-15, record length 15. *)
+Definition ex_tree : item :=
+  Group 1%N Once None
+    (ICons (Elem 2%N 3 Once None) (ICons (Elem 3%N 4 Once None) (ICons (Elem 4%N 2 Once (Some 3%N))
+    (ICons (Group 5%N (Times 2) None (ICons (Elem 6%N 1 Once None) (ICons (Elem 7%N 2 Once None) INil)))
+    (ICons (Elem 8%N 2 Once None) INil))))).
+
+Example C01_example :
+  wf (fun _ => 0) ex_tree = true
+  /\ extent (fun _ => 0) ex_tree = 15
+  /\ spec_nav (fun _ => 0) (VItem ex_tree) 0 [PName 2%N] = inl (VItem (Elem 2%N 3 Once None), 0)
+  /\ spec_nav (fun _ => 0) (VItem ex_tree) 0 [PName 4%N] = inl (VItem (Elem 4%N 2 Once (Some 3%N)), 3)
+  /\ spec_nav (fun _ => 0) (VItem ex_tree) 0 [PName 5%N; PIndex 1; PName 7%N] = inl (VItem (Elem 7%N 2 Once None), 11)
+  /\ spec_nav (fun _ => 0) (VItem ex_tree) 0 [PName 8%N] = inl (VItem (Elem 8%N 2 Once None), 13).
+Proof. vm_compute. repeat split; reflexivity. Qed.
+
+Example C01_example_ids : NoDup (ids ex_tree).
+Proof. vm_compute. repeat constructor; simpl; intuition discriminate. Qed.
